@@ -54,6 +54,20 @@ def gen_case(rng, tier):
         max_n = 20
     else:
         max_n = 60 if tier == "quick" else rng.choice((60, 120, 300))
+    if rng.random() < (0.0015 if tier == "quick" else 0.004):
+        # long chains: every point of X is best matched to a shifted copy, so augmenting paths run through the
+        # whole diagram (the matcher's search depth grows with the size)
+        n = rng.choice((300, 500) if tier == "quick" else (300, 500, 640, 800))
+        gap, pers, off = rng.choice((1.0, 0.5)), rng.choice((100.0, 37.5)), rng.choice((0.6, 0.25))
+        X = [[i * gap, i * gap + pers] for i in range(n)]
+        Y = [[i * gap + off, i * gap + pers + off] for i in range(n)]
+        Z = [[i * gap - off, i * gap + pers] for i in range(n // 2)]
+        perm = list(range(n))
+        rng.shuffle(perm)
+        return {"inputs": {"X": X, "Y": Y, "Z": Z, "perm": perm, "diag": [[1.0, 1.0]], "shift": 2.0, "factor": 2.0},
+                "config": {"set_order": "sim", "mode": rng.choice(("uniform", "insertion")),
+                           "laws": ["symmetry", "bott<=wass"], "chain": True},
+                "ops": []}
     X, style, scale, shift = dgmgen.gen_diagram(rng, max_n, allow_inf=False)
     if rng.random() < 0.6:
         Y = dgmgen.perturbed_copy(rng, X, scale, max_n, style)
@@ -258,6 +272,7 @@ def run_case(case, sched):
         "nontrivial": nonempty >= 2 and nX + nY + nZ >= 4 and done >= 5,
         "probes": {"size_ge_60": int(max(nX, nY, nZ) >= 60 or nX + nY >= 60), "size_ge_200": int(nX + nY >= 200),
                    "an_empty_diagram": int(nonempty < 3), "law_instances": done,
+                   "long_chain_case": int(bool(cfg.get("chain"))),
                    "diagrams_with_infinite_deaths": int(any(not math.isfinite(p[1]) for d_ in (X, Y, Z) for p in d_))},
         "faults": {"set_iterations_ordered": simset.CTX.iters, "non_insertion_choices": simset.CTX.permuted},
     }
